@@ -82,6 +82,8 @@ def scenarios(tier, seed):
 def mn_names(desc):
     names = []
     for i, s in enumerate(desc["scopes"]):
+        if i in desc.get("fixed_factors", []):
+            continue
         n = int(np.prod([desc["card"][v] for v in s]))
         names += [f"f{i}_{j}" for j in range(n)]
     return names
@@ -101,7 +103,13 @@ def build_mn(desc, M, positive=True):
         for a, b in itertools.combinations(s, 2):
             mn.add_edge(a, b)
         n = int(np.prod([card[v] for v in s]))
-        sy = [M.sym(f"f{i}_{j}", pos=positive) for j in range(n)]
+        if i in desc.get("fixed_factors", []):
+            import random
+            from fractions import Fraction
+            rnd = random.Random(1000 * desc.get("fixed_seed", 1) + i)
+            sy = [M.const(Fraction(rnd.randint(1, 9), rnd.randint(1, 4))) for _ in range(n)]
+        else:
+            sy = [M.sym(f"f{i}_{j}", pos=positive) for j in range(n)]
         syms.append(sy)
         sn = {v: C.state_names(style, v, card[v]) for v in s} if style != "default" else None
         facs.append(DiscreteFactor(s, [card[v] for v in s], [M.impl(x) for x in sy], **({"state_names": sn} if sn else {})))
